@@ -10,6 +10,7 @@ mkdir -p "$OUT"
 INC="-I$V/sim/platform -I$V/sim/rt -I$V/sim/interp -I$REPO/platform -I$REPO/platform/posix -I$REPO/public -I$REPO/internal"
 COMMON="-O1 -g -fPIC -fno-omit-frame-pointer -DGOOGLE_NSYNC_VERIF -Wno-unused-command-line-argument"
 # SIM_FUZZ=1: also instrument nsync for libFuzzer coverage feedback (the interpreter stays uninstrumented)
+# (the inline coverage counters get tsan-instrumented too; simrt ignores accesses to the __sancov_cntrs section)
 TS="-fsanitize=thread"; [ -n "$SIM_FUZZ" ] && TS="-fsanitize=thread,fuzzer-no-link"
 case "$FL" in
   gcc_new) CC="clang"; LANGF=""; DEFS="";;
